@@ -58,3 +58,94 @@ Definition check_c17 (c : c17case) : N :=
   | C17Conc long cbs ev res ov =>
       if C17_obs_conc long cbs ev res ov then 0%N else 2%N
   end.
+
+(* ---------- backends: C07, C09, C10, C11, C12, C18 ---------- *)
+From Cache Require Import Backend Spec.
+
+Inductive flavour := Sharded | SyncM | ShardedOf.
+
+Record bcase := BCase {
+  bc_cfg : bcfg;
+  bc_tbl : list (key * N);       (* hash of every key in use: xxhash64 (sharded family) or an injective numbering (SyncMap) *)
+  bc_ops : list bop;
+  bc_res : list bres;            (* what the implementation returned, Walk sorted by key *)
+  bc_metrics : list Z;           (* hit, miss, expired, write, delete totals of the stats tracker *)
+}.
+
+Definition table_hash (tbl : list (key * N)) (k : key) : N :=
+  match list_find (fun p => bool_decide (p.1 = k)) tbl with
+  | Some (_, p) => p.2
+  | None => 0%N
+  end.
+
+Definition strip_c (r : bres) : bres :=
+  match r with
+  | RWalk l => RWalk (map (fun e => mkEntry (eK e) (eV e) (eE e) 0) l)
+  | _ => r
+  end.
+
+Definition proj_load (o : bop) (r : bres) : bres :=
+  match o, r with
+  | OLoad _ _, RErr _ => RErr ENotFound
+  | _, _ => r
+  end.
+
+Definition res_eqb (a b : bres) : bool :=
+  match a, b with
+  | RWalk l1, RWalk l2 => bool_decide (l1 ≡ₚ l2)
+  | _, _ => bool_decide (a = b)
+  end.
+
+Fixpoint all2 {A B} (f : A -> B -> bool) (l1 : list A) (l2 : list B) : bool :=
+  match l1, l2 with
+  | [], [] => true
+  | a :: r1, b :: r2 => f a b && all2 f r1 r2
+  | _, _ => false
+  end.
+
+Definition collision_freeb (tbl : list (key * N)) : bool :=
+  bool_decide (NoDup (tbl.*2)).
+
+Definition model_results (c : bcase) : list bres :=
+  let '(_, r, _) := b_run (table_hash (bc_tbl c)) (bc_cfg c) b0 (bc_ops c) in
+  zip_with proj_load (bc_ops c) r.
+
+Definition spec_results (c : bcase) : list bres :=
+  let '(_, r, _) := s_run (bc_cfg c) s0 (bc_ops c) in
+  zip_with proj_load (bc_ops c) r.
+
+(* C07: every result equals the reference map's (keys pairwise non-colliding) *)
+Definition check_c07 (fc : flavour * bcase) : N :=
+  let c := fc.2 in
+  let impl := map strip_c (bc_res c) in
+  if negb (collision_freeb (bc_tbl c)) then 9%N
+  else if all2 res_eqb impl (map strip_c (spec_results c))
+  then (if all2 res_eqb impl (map strip_c (model_results c)) then 0 else 1)%N
+  else 2%N.
+
+(* C09: for any hash (collisions included) a keyed result is the reference result or a miss;
+   Walk lists only entries the reference map holds; Len never exceeds the reference's. *)
+Definition sub_walk (impl spec : list entry) : bool :=
+  forallb (fun e => bool_decide (e ∈ spec)) impl && bool_decide (NoDup (map eK impl)).
+
+Definition c09_ok (o : bop) (impl spec : bres) : bool :=
+  match o with
+  | OLen => match impl, spec with RLen a, RLen b => (a <=? b) && (0 <=? a) | _, _ => false end
+  | OWalk => match impl, spec with RWalk a, RWalk b => sub_walk a b | _, _ => false end
+  | OExpireAll _ | ODeleteAll | OCleanup _ _ => bool_decide (impl = RUnit)
+  | _ => res_eqb impl spec || bool_decide (impl = RErr ENotFound)
+  end.
+
+Fixpoint all3 {A B C} (f : A -> B -> C -> bool) (l1 : list A) (l2 : list B) (l3 : list C) : bool :=
+  match l1, l2, l3 with
+  | [], [], [] => true
+  | a :: r1, b :: r2, c :: r3 => f a b c && all3 f r1 r2 r3
+  | _, _, _ => false
+  end.
+
+Definition check_c09 (fc : flavour * bcase) : N :=
+  let c := fc.2 in
+  let impl := map strip_c (bc_res c) in
+  let p := all3 c09_ok (bc_ops c) impl (map strip_c (spec_results c)) in
+  if all2 res_eqb impl (map strip_c (model_results c)) then (if p then 0 else 2)%N
+  else (if p then 1 else 2)%N.
